@@ -70,6 +70,9 @@ Schema(s) ==
          << DSec("t", {"MULTI","TITLE"}, << DInt("x", "5"), DPtr("p") >>) >>
     [] s = 8 -> (* two lists with defaults: interplay of consecutive list assignments *)
          << DIntList("la", <<"1","2">>), DStrList("lb", <<"x">>) >>
+    [] s = 19 -> (* validation callbacks on a section, on an option inside it and on a top-level scalar *)
+         << WithCb(DSec("m", {"MULTI"}, << WithCb(DInt("x", "5"), {"valid"}) >>), {"valid"}),
+            WithCb(DInt("i", "7"), {"valid"}) >>
     [] s = 18 -> (* two scalars: annotations whose text touches the comment brackets *)
          << DInt("i", "7"), DStr("s", "d") >>
     [] s = 17 -> (* validation callbacks on options that are dropped after use *)
@@ -107,6 +110,7 @@ ValuePool(s) ==
     [] s = 16 -> {"1"}
     [] s = 17 -> {"1"}
     [] s = 18 -> {"1"}
+    [] s = 19 -> {"1"}
 TitlePool(s) == IF s \in {2, 3, 4} THEN (IF Mode \in {"ignore", "ignorecmt"} THEN {"a"} ELSE {"a", "b"})
                 ELSE IF s = 7 THEN {"a", "A"} ELSE IF s \in {9, 15} THEN {"a"} ELSE {}
 
@@ -138,7 +142,7 @@ CommentTokens ==
 (* a string value spanning two lines (literal newline inside double quotes) *)
 MultiLineTokens == IF Mode = "lines" /\ NlUsed < NlBudget THEN {[TkStr("p\nq") EXCEPT !.nlin = 1]} ELSE {}
 
-NlChoices == IF Mode = "lines" /\ NlUsed < NlBudget THEN {0, 1} ELSE {0}
+NlChoices == IF Mode \in {"lines", "cblines"} /\ NlUsed < NlBudget THEN {0, 1} ELSE {0}
 
 Alphabet ==
   {[t EXCEPT !.nl = n] : t \in {TkP(k) : k \in Punct} \cup StrTokens \cup CommentTokens \cup MultiLineTokens,
@@ -160,6 +164,8 @@ Cfgs ==
   CASE Mode = "plain"     -> {ParseCfg(FALSE, FALSE, FALSE, 0, 0, 0)}
     [] Mode = "comments"  -> {ParseCfg(FALSE, c, FALSE, 0, 0, 0) : c \in BOOLEAN}
     [] Mode = "lines"     -> {ParseCfg(FALSE, FALSE, FALSE, 0, 0, 0)}
+    [] Mode = "cblines"   -> (* line breaks and a validation callback that refuses (1st / 2nd invocation) *)
+                             {ParseCfg(FALSE, FALSE, FALSE, 0, fv, 0) : fv \in 1..2}
     [] Mode = "ignore"    -> {ParseCfg(FALSE, FALSE, TRUE, 0, 0, 0)}
     [] Mode = "ignorecmt" -> {ParseCfg(FALSE, TRUE, TRUE, 0, 0, 0)}
     [] Mode = "callbacks" -> (* no failure, or exactly one failing invocation (1st / 2nd of a kind) *)
